@@ -31,27 +31,38 @@ SLOW = {'ElementHexC1', 'Vector(ElementHex2)'}
 
 def exec_number(rec):
     events = []
-    mesh, merr = guarded(lambda: DC.make_mesh(rec['mesh']), 30)
+    mesh, merr = DC.lib(lambda: DC.make_mesh(rec['mesh']), 300)
+    per = DC.period_of(rec['mesh'])
     for spec in rec['elems']:
-        def call():
+        def build():
+            # library calls only (exceptions are observations); the projection below runs outside, so that a surprise
+            # in the harness is a machinery failure (exit 2) and not a verdict
             from skfem.assembly import Dofs, CellBasis
             elem = DC.build_element(spec)
             with warnings.catch_warnings():
                 warnings.simplefilter('ignore')
-                per = DC.period_of(rec['mesh'])
                 if rec.get('via') == 'dofs':
-                    return DC.number_event(mesh, elem, Dofs(mesh, elem), None, rec.get('drift', 0), period=per)
-                with DC.LogCapture() as cap:
-                    b = CellBasis(mesh, elem, intorder=rec.get('intorder', 1))
-            warned = any('DOF locations' in r for r in cap.records)
-            return DC.number_event(mesh, elem, b, getattr(b, 'doflocs', None), rec.get('drift', 0), with_locs=True,
-                                   period=per, orient=DC.orientable(mesh, rec['mesh']), warned=warned)
+                    obj, cap = Dofs(mesh, elem), None
+                else:
+                    with DC.LogCapture() as cap:
+                        obj = CellBasis(mesh, elem, intorder=rec.get('intorder', 1))
+                DC.mesh_tables(mesh)                 # derived connectivity is computed lazily by the library
+            return elem, obj, cap
         if merr:
-            ev, err = None, merr
+            r, err = None, merr
         else:
-            ev, err = guarded(call, 60)
+            r, err = DC.lib(build, 600)
         if err:
             ev = DC.number_error_event(err)
+        elif rec.get('via') == 'dofs':
+            ev = DC.number_event(mesh, r[0], r[1], None, rec.get('drift', 0), period=per)
+        else:
+            elem, b, cap = r
+            # observable: anything the library's own loggers report at WARNING level or above while the basis is built
+            # (logger + level, not the wording of the message)
+            warned = any(n.startswith('skfem') for n in cap.names)
+            ev = DC.number_event(mesh, elem, b, getattr(b, 'doflocs', None), rec.get('drift', 0), with_locs=True,
+                                 period=per, orient=DC.orientable(mesh, rec['mesh']), warned=warned)
         ev['tags'] = {'elem': DC.label(spec)}
         events.append(ev)
     return events
@@ -101,7 +112,7 @@ def exec_matrix(rec):
                 't2f': ids(mesh.t2f), 'test': DC.table(bt.dofs.element_dofs), 'trial': DC.table(bu.dofs.element_dofs),
                 'Ntest': int(bt.N), 'Ntrial': int(bu.N), 'shape': [int(A.shape[0]), int(A.shape[1])],
                 'nz': [[int(a), int(b)] for a, b in zip(r, c)]}
-    ev, err = guarded(call, 120)
+    ev, err = DC.lib(call, 900)
     if err:
         if mode in ('bfacets', 'ifacets'):
             return []            # the element / mesh type has no facet basis: nothing assembled, nothing to judge
@@ -335,7 +346,7 @@ def exec_compbasis(rec):
                         'shape': [int(A.shape[0]), int(A.shape[1])], 'cover': 1,
                         'nz': [[int(a), int(b)] for a, b in zip(r, c)]})
         return evs
-    evs, err = guarded(call, 120)
+    evs, err = DC.lib(call, 900)
     if err:
         evs = [{'a': 'CompositeBasis', 'err': err, 'equal': 0, 'whole': 0, 'N': 0, 'cell': [], 'parts': []}]
     return evs
